@@ -19,7 +19,7 @@ SPELL = {
     "rust": (("3975", 3975, True), ("7", 7, True), ("39.75", 39.75, False), ("0xF87", 3975, True),
              ("3_975", 3975, True), ("0xE5", 229, True), ("0b1011", 11, True), ("2.5e3", 2500.0, False),
              ("3975i32", 3975, True), ("7usize", 7, True), ("39.75f64", 39.75, False), ("0x1f32", 0x1f32, True),
-             ("0xffu8", 255, True)),
+             ("0xffu8", 255, True), ("003975", 3975, True), ("6e4", 60000.0, False), ("1e-9", 1e-9, False)),
 }
 SPELL["javascript"] = SPELL["typescript"]
 
@@ -74,6 +74,7 @@ CTX = {
         "static-item": (["static LIMIT_B: i64 = {t};"], "const"),
         "test-fn": (["#[test]", "fn check() {{", "    assert_eq!(f(1), {t});", "}}"], "test"),
         "cfg-test-mod": (["#[cfg(test)]", "mod tests {{", "    fn helper() -> i64 {{", "        {t}", "    }}", "}}"], "test"),
+        "enum-discriminant": (["enum Level {{", "    Low = {t},", "}}"], "const"),
     },
 }
 CTX["javascript"] = {k: v for k, v in CTX["typescript"].items() if k != "enum-member"}
@@ -81,7 +82,7 @@ NON_NUMERIC = {
     "python": ["flag = True", "other = False", "label = '12345'", "x123 = None", "def h(a=True):", "    return a"],
     "typescript": ["let flag = true;", "let label = '12345';", "let x123 = null;"],
     "javascript": ["let flag = true;", "let label = '12345';", "let x123 = null;"],
-    "rust": ["fn h() -> bool {", "    let label = \"12345\";", "    let x123 = true;", "    x123 && !label.is_empty()", "}"],
+    "rust": ["fn h(pair: (bool, bool, bool)) -> bool {", "    let label = \"12345\";", "    let x123 = pair.2;", "    x123 && !label.is_empty()", "}"],
 }
 FILES = {
     "python": (("app.py", False), ("test_app.py", True), ("app_test.py", True), ("constants.py", "def"),
@@ -109,6 +110,8 @@ def make_h(tier):
             text, value, is_int = ctx.pick(f"lit{i}", spells)
             cname = ctx.pick(f"ctx{i}", tuple(CTX[lang]) if i == 0 else (tuple(CTX[lang])[:1] if quick else tuple(CTX[lang])[:4]))
             tmpl, exempt = CTX[lang][cname]
+            if cname == "enum-discriminant" and (not is_int or not text.isdigit()):
+                ctx.assume(False)       # discriminants are plain integer literals
             in_allowed = ctx.flag(f"allowed{i}")
             if in_allowed:
                 allowed.append(value)
@@ -199,12 +202,14 @@ def h_kinds(ctx):
         is_int, is_float = kind == "integer_literal", kind == "float_literal"
         parses = Or(And(is_int, text == "3975"), And(is_float, text in ("3975", "39.75")))
         ctx.cover("collected" if lits else "not-collected")
-        ctx.require("collected-iff-numeric-literal-kind", Eq(len(lits) == 1, parses), text=text)
+        # the second child of a field_expression is a field name (tuple index `pair.2`), whatever its token kind
+        is_field_name = parent_kind == "field_expression"
+        ctx.require("collected-iff-numeric-literal-kind", Eq(len(lits) == 1, And(parses, Not(is_field_name))), text=text)
         if lits:
             ctx.require("line-of-the-literal", lits[0][2] == 3)
-            ctx.require("const-context-iff-an-ancestor-is-a-const-or-static-item",
-                        Eq(a.is_constant_definition(node), Or(parent_kind.is_one_of(("const_item", "static_item")),
-                                                              grand_kind.is_one_of(("const_item", "static_item")))))
+            exempting = ("const_item", "static_item", "enum_variant")     # const / static / enum member (documented exemptions)
+            ctx.require("const-context-iff-an-ancestor-is-a-const-static-or-enum-member",
+                        Eq(a.is_constant_definition(node), Or(parent_kind.is_one_of(exempting), grand_kind.is_one_of(exempting))))
 
 
 def _same_number(s, value):
